@@ -312,7 +312,35 @@ def c14(k, ctx):
                        "tolerance 1e-13 * max(1, max_s |<r,s>|/sigma^2) (Trace_C14.tla)"]
 
 
-PIPELINES = {"C14": c14, "C15": c15, "C18": c18, "C03": c03, "C04": c04, "C05": c05, "C01": c01, "C10": c10, "C08": c08, "C11": c11, "C02": c02, "C09": c09, "C17": c17}
+def c12(k, ctx):
+    ctx.rule = ("Sizes cases: BerTestBuilder.build() for every pattern up to length 7 (9) x fitting codeword sizes (incl. 6-of-7 x 35, 10-of-11 x 33); Frame cases: frames seen by a recording "
+                "decoder injected through DecoderFactory in real BER runs at 35 dB over {BPSK, 8PSK} x {none, 4 patterns} x {none, +-2, +-3, 4, +-5 columns} on four systematic codes; Run cases: the "
+                "statistics of those runs (the decoder flips exactly one systematic bit per error frame); Noise cases: LLR moments of runs at 2 dB and 6 dB vs a reference chain; "
+                "non-trivial = distinct Frame cases with puncturing or interleaving + Sizes cases with a pattern that removes a block + Noise cases")
+    ctx.tlc_mc("MC_Chain", "MC_Chain_thorough.cfg" if ctx.thorough else "MC_Chain.cfg")
+    ctx.tlc_mc("MC_Chain", "MC_Chain_neg.cfg", expect_violation=True)
+    ctx.vh("gen", "i2s", timeout=3000)
+    recs, rej = ctx.validate("Trace_C12", timeout=3000)
+    ctx.require_events("Sizes", "Frame", "Run", "Noise")
+    for r in recs:
+        if r["o"] != "ok":
+            continue
+        if r["e"] == "Frame" and (r["cfg"]["usep"] or r["cfg"]["useil"]):
+            c = r["cfg"]
+            ctx.nontrivial_keys.add(k.key("F", c["ncw"], c["bps"], c["pat"], c["C"], c["back"], c["useil"], r["hard"]))
+        elif r["e"] == "Sizes" and 0 in r["pat"]:
+            ctx.nontrivial_keys.add(k.key("S", r["ncw"], r["pat"]))
+        elif r["e"] == "Noise":
+            ctx.nontrivial_keys.add(k.key("N", r["i"]))
+    ctx.extra["chain_configurations_run"] = sum(1 for r in recs if r["e"] == "Run")
+    ctx.extra["noise_llrs"] = sum(r["N"] for r in recs if r["e"] == "Noise" and r["o"] == "ok")
+    ctx.samples = [k.sample_case(recs, 10), [{kk: v for kk, v in r.items() if kk not in ("nx", "li")} for r in recs if r["e"] == "Noise"][:1],
+                   [{kk: v for kk, v in r.items() if kk not in ("nx", "li")} for r in recs if r["e"] == "Frame" and r["cfg"]["usep"] and r["cfg"]["useil"]][:1]]
+    ctx.assumptions = ["TLC 1.8 + Json/IOUtils", "the injected decoder only records (length, exact-zero positions, sign pattern) and answers by script; it never sees the message",
+                       "35 dB Eb/N0: noise cannot flip a sign (> 50 sigma)", "reference moments: public Modulator/Demodulator + the harness's own Gaussian source with sigma from the stated formula; bands of 3-4 % (10 standard errors)"]
+
+
+PIPELINES = {"C12": c12, "C14": c14, "C15": c15, "C18": c18, "C03": c03, "C04": c04, "C05": c05, "C01": c01, "C10": c10, "C08": c08, "C11": c11, "C02": c02, "C09": c09, "C17": c17}
 NOT_YET = {}
 
 
